@@ -65,13 +65,15 @@ def _cases(draw):
     method = draw(st.sampled_from(["quantile", "bc", "bca"]))
     A = draw(st.sampled_from(ASHAPES)) if method == "quantile" else ()
     na = gen.shape_size(A)
-    alpha = draw(st.lists(st.one_of(st.sampled_from([0.01, 0.05, 0.1, 0.5, 0.9, 0.001, 0.999]),
+    alpha = draw(st.lists(st.one_of(st.sampled_from([0.01, 0.05, 0.1, 0.5, 0.9, 0.001, 0.999, 1e-6, 1e-9, 1e-12,
+                                                     1 - 1e-9]),
                                     st.floats(min_value=1e-3, max_value=0.999)),
                           min_size=na, max_size=na))
     alpha2 = draw(st.floats(min_value=1e-3, max_value=0.999))
     return dict(n=n, Y=list(Y), kind=kind, cols=cols, nan=nan_mask, est=est, method=method,
                 A=list(A), alpha=alpha, alpha2=alpha2,
                 perm_seed=draw(st.integers(0, 10**6)), extra_nans=draw(st.integers(1, 3)),
+                theta_dtype=draw(st.sampled_from(["float64", "float64", "float32", "int", "F"])),
                 aff=[draw(st.sampled_from([0.5, 2.0, 4.0, 0.125])), float(draw(st.integers(-8, 8)))])
 
 
@@ -119,6 +121,14 @@ def check(case):
     n, Y, A = case["n"], tuple(case["Y"]), tuple(case["A"])
     method = case["method"]
     theta = _theta(case)
+    td = case.get("theta_dtype", "float64")
+    has_nan = any(any(r) for r in case["nan"])
+    if td == "float32" and case["kind"] in ("discrete", "constant", "dyadic"):
+        theta = theta.astype(np.float32)  # exactly representable values
+    elif td == "int" and case["kind"] == "discrete" and not has_nan:
+        theta = theta.astype(np.int64)
+    elif td == "F" and theta.ndim >= 2:
+        theta = np.asfortranarray(theta)
     theta0 = theta.copy()
     est = np.asarray(case["est"], dtype=float).reshape(Y)
     alpha = np.asarray(case["alpha"], dtype=float).reshape(A)
